@@ -24,8 +24,8 @@ Section BufferInstance.
     (s', hd_error (log s')).
 
   Definition bkey (o : bop) : mkey :=
-    match o with BPush _ _ _ => ("EventsBuffer", "PushEvent") | BClear => ("EventsBuffer", "Clear") end.
-  Definition bkeys : list mkey := [("EventsBuffer", "PushEvent"); ("EventsBuffer", "Clear")].
+    match o with BPush _ _ _ => mkK "EventsBuffer" "PushEvent" "self" "mu" | BClear => mkK "EventsBuffer" "Clear" "self" "mu" end.
+  Definition bkeys : list mkey := [mkK "EventsBuffer" "PushEvent" "self" "mu"; mkK "EventsBuffer" "Clear" "self" "mu"].
   Definition bk_readonly (_ : mkey) : bool := false.
 
   Lemma bkeys_complete : forall o, In (bkey o) bkeys.
@@ -54,3 +54,17 @@ Section BufferInstance.
     exact (os_race_free _ _ _ bstep bkey bkeys bk_readonly bkeys_complete b_readonly_sound tbl Hcheck).
   Qed.
 End BufferInstance.
+
+(* model/Buffer.v itself shows the intermediate order that MiniBuffer (proofs/LinRefute.v) abstracts: with the
+   children 1 and 2 of event 0 buffered, PushEvent(0) processes 0, then 1, then 2 — the callback log (newest first)
+   is the witness — and the buffer is empty afterwards; there is a moment with exactly one child left. *)
+Definition never_fails (_ : list out) (_ : entry) : bool := false.
+Definition st_two_children : Buffer.st :=
+  Buffer.run never_fails never_fails true 10 100000 [OpPush 1 [0%N] 84; OpPush 2 [0%N] 84].
+Example buffer_v_children_one_by_one :
+  map eid (inc st_two_children) = [1%N; 2%N] /\
+  inc (Buffer.step never_fails never_fails true 10 100000 st_two_children (OpPush 0 [] 52)) = [] /\
+  filter (fun o => match o with OProcess _ _ _ => true | _ => false end)
+         (log (Buffer.step never_fails never_fails true 10 100000 st_two_children (OpPush 0 [] 52)))
+  = [OProcess 1 2 true; OProcess 0 1 true; OProcess 2 0 true].
+Proof. vm_compute. repeat split; reflexivity. Qed.
